@@ -153,6 +153,11 @@ def run_scenario(case, observer=None):
         state["k"] = k
         for (name, rep) in faults.get(str(k), []):
             l = ps_.get_comp(name)
+            if name.startswith(("IL", "IN")):       # communication line / node: not part of the switching model, no model op
+                if not l.failed:
+                    l.repair_time_dist = net.FixedDist(F(rep))
+                    l.fail(curr_time - prev_time)
+                continue
             if not l.failed:
                 pre_conn = l.connected
                 l.repair_time_dist = net.FixedDist(F(rep))
@@ -181,7 +186,8 @@ def run_scenario(case, observer=None):
         rec = {"k": state["k"], "phase": "step", "inv": v.invariants(), "normal": v.is_normal(),
                "cb_open": {n.name: n.connected_line.circuitbreaker.is_open for n in v.nets},
                "timers": {n.name: n.controller.sectioning_time.get_hours() for n in v.nets},
-               "failed": [l.name for l in v.lines if l.failed]}
+               "failed": [l.name for l in v.lines if l.failed],
+               "ict_failed": [c.name for c in list(getattr(ps, "ict_lines", [])) + list(getattr(ps, "ict_nodes", [])) if c.failed]}
         if observer is not None:
             observer(ps, v, rec)
         info.append(rec)
